@@ -83,6 +83,7 @@ type Op struct {
 	Vec    bool     `json:"vec,omitempty"`    // compact: write vectors
 	Data   string   `json:"data,omitempty"`   // load: ZSON text
 	IDs    []string `json:"ids,omitempty"`    // explicit ids (resolved beforehand)
+	PoolID string   `json:"pool_id,omitempty"` // pool id resolved beforehand (API-level calls take ids)
 }
 
 func (o Op) String() string {
@@ -226,20 +227,29 @@ func (l *Lake) Apply(ctx context.Context, op Op) (string, error) {
 		}
 		id, err := l.API.CreatePool(ctx, op.Pool, keys, op.Stride, op.Thresh)
 		return id.String(), err
-	case "renamepool":
-		id, err := l.Root.PoolID(ctx, op.Pool)
+	case "renamepool", "droppool":
+		var id ksuid.KSUID
+		var err error
+		if op.PoolID != "" {
+			id, err = lakeparse.ParseID(op.PoolID)
+		} else {
+			id, err = l.Root.PoolID(ctx, op.Pool)
+		}
 		if err != nil {
 			return "", err
 		}
-		return "", l.API.RenamePool(ctx, id, op.Name)
-	case "droppool":
-		id, err := l.Root.PoolID(ctx, op.Pool)
-		if err != nil {
-			return "", err
+		if op.Kind == "renamepool" {
+			return "", l.API.RenamePool(ctx, id, op.Name)
 		}
 		return "", l.API.RemovePool(ctx, id)
 	}
-	poolID, err := l.Root.PoolID(ctx, op.Pool)
+	var err error
+	var poolID ksuid.KSUID
+	if op.PoolID != "" {
+		poolID, err = lakeparse.ParseID(op.PoolID)
+	} else {
+		poolID, err = l.Root.PoolID(ctx, op.Pool)
+	}
 	if err != nil {
 		return "", err
 	}
@@ -289,9 +299,9 @@ func (l *Lake) Apply(ctx context.Context, op Op) (string, error) {
 		case "compact":
 			id, err = l.API.Compact(ctx, poolID, op.Branch, ids, op.Vec, msg)
 		case "addvec":
-			id, err = l.API.AddVectors(ctx, op.Pool, op.Branch, ids, msg)
+			id, err = l.API.AddVectors(ctx, poolID.String(), op.Branch, ids, msg)
 		case "delvec":
-			id, err = l.API.DeleteVectors(ctx, op.Pool, op.Branch, ids, msg)
+			id, err = l.API.DeleteVectors(ctx, poolID.String(), op.Branch, ids, msg)
 		}
 		return id.String(), err
 	case "deletewhere":
@@ -320,7 +330,7 @@ func (l *Lake) Apply(ctx context.Context, op Op) (string, error) {
 		id, err := l.API.Revert(ctx, poolID, op.Branch, commit, msg)
 		return id.String(), err
 	case "vacuum":
-		ids, err := l.API.Vacuum(ctx, op.Pool, op.Branch, false)
+		ids, err := l.API.Vacuum(ctx, poolID.String(), op.Branch, false)
 		return fmt.Sprint(len(ids)), err
 	}
 	return "", fmt.Errorf("unknown op kind %q", op.Kind)
@@ -342,6 +352,61 @@ func (l *Lake) resolveObjs(ctx context.Context, op Op) ([]ksuid.KSUID, error) {
 		ids = append(ids, objs[i].ID)
 	}
 	return ids, nil
+}
+
+// Resolve turns the state-relative parts of op (pool name, object indices,
+// commit indices) into ids using the current state, so that applying it later
+// is a single API-level call rather than a read followed by a write.
+func (l *Lake) Resolve(ctx context.Context, op Op) (Op, error) {
+	if op.Kind == "createpool" || op.Kind == "init" {
+		return op, nil
+	}
+	id, err := l.Root.PoolID(ctx, op.Pool)
+	if err != nil {
+		return op, nil // pool does not exist yet: stays name-based
+	}
+	op.PoolID = id.String()
+	switch op.Kind {
+	case "delete", "compact", "addvec", "delvec":
+		if op.IDs == nil {
+			ids, err := l.resolveObjs(ctx, op)
+			if err != nil {
+				return op, err
+			}
+			for _, id := range ids {
+				op.IDs = append(op.IDs, id.String())
+			}
+		}
+	case "revert":
+		if op.IDs == nil {
+			path, err := l.CommitPath(ctx, op.Pool, op.Branch)
+			if err != nil {
+				return op, err
+			}
+			if len(op.Idx) != 1 || op.Idx[0] >= len(path) {
+				return op, ErrSkip
+			}
+			op.IDs = []string{path[op.Idx[0]].String()}
+		}
+	case "createbranch":
+		if op.IDs == nil && op.At != -2 {
+			path, err := l.CommitPath(ctx, op.Pool, op.Branch)
+			if err != nil {
+				return op, err
+			}
+			switch {
+			case op.At == -1 && len(path) > 0:
+				op.IDs = []string{path[len(path)-1].String()}
+			case op.At == -1:
+				op.At = -2
+			case op.At >= len(path):
+				return op, ErrSkip
+			default:
+				op.IDs = []string{path[op.At].String()}
+			}
+		}
+	}
+	return op, nil
 }
 
 // Query runs src and returns each output value formatted as ZSON.
